@@ -1729,7 +1729,20 @@ def _parse_expr(it, text, **kw):
 assumed("sympy-parser", "sympy.parsing.sympy_parser.parse_expr is abstract: it may raise any exception, "
         "return an arbitrary sympy expression, or return an arbitrary non-Expr object")
 
+def _json_loads(it, text, **kw):
+    """json.loads of a serialised unit registry: some table (its rows are whatever the text says); the decoded
+    object is freshly made"""
+    t = SLut.fresh(it, "decoded_json_table")
+    t.known_nonempty = True
+    it.ctx.events.append(("json-loads", t, t.term))
+    return t
+
+
+assumed("json-loads-table", "json.loads(<registry text>) returns a freshly made, non-empty table whose rows are "
+        "whatever the text encodes (decoding itself is not modelled)")
+
 EXTERNAL_CALLS = {
+    "json.loads": _json_loads,
     "sympy.parsing.sympy_parser.parse_expr": _parse_expr,
     "packaging.version.Version": lambda it, *a: Opaque("version"),
     "collections.OrderedDict": _ordered_dict,
